@@ -70,11 +70,11 @@ func VH_C14() {
 		lg.SetColorMode(false)
 	}
 	n := vChoose(vParam("skip", 2) + 1)
-	lg.SetSkip(n)
 	SetDefault(&logimp{lg})
 	ctx := context.Background()
 	std := logslog.New(&handler4LogSlog{&logimp{lg}})
 	bridge := NewLogLogger(&logimp{lg}, AlwaysLevel) // a severity the bridge forwards whatever its admission test (C15)
+	lg.SetSkip(n) // after the adapter and the bridge exist: the skip count in force is the logger's current one
 	stackErr := vC14MakeErr()
 	eps := []func(){
 		func() { vC14Fn, vC14Ln = vHere(); lg.Error("m") }, // Error
